@@ -166,6 +166,15 @@ def run(ctx: common.Ctx):
                             dict(base, exception=None, per_tx=(1, 4), special=['sec', 'sec', 'start', 'stop', 'junction'], sec_near_start=0.6, coding_only=True))
     judge(ctx, res, 'special-codons')
     stats4 = dict(ctx.coverage['worker_stats'])
+    # Sec termination inside the START node: Sec a few codons behind the ATG with no K / R in between, a
+    # long in-frame 5'UTR run without K / R / stop in front of the ATG (the start codon lies in the
+    # second half of its node), records between the ATG and the Sec, SECT on
+    res = cv_checks.explore(ctx, ctx.n(200, 3000),
+                            dict(base, exception=None, per_tx=(1, 3), max_size=4, window=16, as_frac=0.0,
+                                 special=['sec_prefix', 'sec_prefix', 'start'], sec_near_start=0.9,
+                                 start_context=1.0, coding_only=True, variations=[], stages=False,
+                                 tvgbuild=False, kw=dict(selenocysteine_termination=True)))
+    judge(ctx, res, 'sec-in-start-node')
     # small records INSIDE the stretch a splicing Insertion / Substitution inserts
     res = cv_checks.explore(ctx, ctx.n(60, 1500), dict(base, exception=None, per_tx=(1, 4), as_frac=1.0, nested_frac=1.0, stages=True))
     judge(ctx, res, 'nested-in-splicing')
